@@ -76,14 +76,23 @@ func (tr *Tr) havocLog(st *State) {
 }
 
 // havocState forgets the whole heap, ghost maps and log (unknown call).
-func (tr *Tr) havocState(st *State, why string) {
+func (tr *Tr) havocState(st *State, why string) { tr.havocStateBy(st, why, nil) }
+
+// havocStateBy: the havoc is caused by a call to callee (nil: unknown code): fields that callee cannot store into survive.
+func (tr *Tr) havocStateBy(st *State, why string, callee *ssa.Function) {
 	f := tr.f
 	oldHeap := map[string]*Term{}
 	for _, k := range heapKeys {
 		oldHeap[k] = tr.get(st, heapComp(k))
 	}
 	allocBefore := tr.get(st, "alloc")
-	defer func() { tr.keepImmutableFields(st, oldHeap, allocBefore) }()
+	defer func() {
+		if callee != nil {
+			tr.keepStableFields(st, oldHeap, allocBefore, callee)
+		} else {
+			tr.keepImmutableFields(st, oldHeap, allocBefore)
+		}
+	}()
 	for _, k := range heapKeys {
 		nh := f.Fresh("Hhavoc"+k, tr.compSort(heapComp(k)))
 		for _, reg := range tr.privateRegs {
@@ -102,7 +111,7 @@ func (tr *Tr) havocState(st *State, why string) {
 
 func (tr *Tr) havocAll(fr *Frame, why string) {
 	tr.note("havoc: " + why)
-	tr.havocState(fr.st, why)
+	tr.havocStateBy(fr.st, why, tr.havocCallee)
 }
 
 // havocAllNoWrite: like havocAll for a callee from which no device write is reachable in the call graph
@@ -110,7 +119,7 @@ func (tr *Tr) havocAll(fr *Frame, why string) {
 func (tr *Tr) havocAllNoWrite(fr *Frame, why string) {
 	oldLen := tr.get(fr.st, "ev.len")
 	tr.note("havoc (no device write reachable from the callee): " + why)
-	tr.havocState(fr.st, why)
+	tr.havocStateBy(fr.st, why, tr.havocCallee)
 	tr.assumeNoWriteSince(fr.st, oldLen, "events appended by a callee that cannot reach WriteAt are not WRITE events")
 }
 
@@ -282,6 +291,8 @@ func (tr *Tr) call(fr *Frame, site ssa.Instruction, c *ssa.CallCommon, res *ssa.
 	}
 	if tr.P.isRepoFunc(sf) {
 		tr.uncheckedCalleeEffects(fr, site, sf.Name(), func(e string) bool { return tr.P.mayEffect(sf, e) })
+		tr.havocCallee = sf
+		defer func() { tr.havocCallee = nil }()
 		if !tr.P.mayEffect(sf, "devwrite") {
 			tr.havocAllNoWrite(fr, "repo callee without contract, too large to inline: "+funcDisplay(sf))
 			tr.setResult(fr, res, fresh("r_"+sf.Name()))
@@ -1046,7 +1057,7 @@ func (tr *Tr) callByContract(fr *Frame, site ssa.Instruction, fn *ssa.Function, 
 	} else {
 		tr.note("callee contract without modifies clause (heap havocked): " + funcDisplay(fn))
 		logLen := tr.get(post, "ev.len")
-		tr.havocState(post, "callee "+fn.Name())
+		tr.havocStateBy(post, "callee "+fn.Name(), fn)
 		if !tr.P.mayEffect(fn, "devwrite") {
 			tr.assumeNoWriteSince(post, logLen, "events appended by a callee that cannot reach WriteAt are not WRITE events")
 		}
